@@ -991,7 +991,8 @@ func recvCh[T any](
 
 func (broker *Broker) handleSendError(payload sts.Payload, nPartsReceived int) sts.Payload {
 	nErr := 0
-	var n int
+	// When the server's answer carried the number of parts it received, use it
+	n := nPartsReceived
 	var err error
 	for {
 		if broker.shouldStopNow() {
